@@ -87,6 +87,8 @@ fn finals(tier: Tier) -> Vec<(u16, &'static str, Vec<(&'static str, &'static str
         (307, "1.1", vec![("Location", "http://b.test/x")], BodySpec::Length(b"abc".to_vec())),
         (301, "1.0", vec![("Location", "/n")], BodySpec::NoHeader(vec![])),
         (302, "1.1", vec![("Location", "/n"), ("Location", "/m")], ch1.clone()),
+        // a non-redirect status that carries a Location header (201 Created)
+        (201, "1.1", vec![("Location", "/created/1"), ("X-After", "1")], BodySpec::Length(b"ok".to_vec())),
     ];
     if tier.thorough() {
         v.extend(vec![
